@@ -115,6 +115,13 @@ func (p *c07) build(seed uint64, tier string) []C07Scenario {
 							if auth == "NOAUTH" {
 								sc.Client.User, sc.Client.Pass = user, pass
 							}
+							if pol != "implicit" {
+								// the policy reaches the Client in different ways; it is the same policy
+								sc.Client.PolicyVia = []string{"", "", "setter", "port-setter", "port-option", "twice", ""}[idx%7]
+								if sc.Client.PolicyVia != "" {
+									sc.Label += "|via=" + sc.Client.PolicyVia
+								}
+							}
 							if b.reply != nil {
 								sc.Server.Rules = []refsmtpd.Rule{{Verb: "STARTTLS", Nth: 1, Action: *b.reply}}
 							}
